@@ -27,31 +27,48 @@ RECURSIVE NameHash(_)
 NameHash(n) == IF n = <<>> THEN 0 ELSE LIdx(n[1]) + 5 * NameHash(Tail(n))
 
 \* ---------------------------------------------------------------- list level
+\* address ids: 1 = 10.0.0.1, 2 = fe80::1, 3 = ::ffff:10.0.0.1 (the IPv4-mapped form of 1: a different
+\* VALUE, 16 octets), 4 = 10.0.0.2.  Texts are spelled out symbol by symbol; the harness checks them
+\* against the literals it really passes (ipaddress spelling of this interpreter).
+T1 == << <<"1", "0">>, <<"0">>, <<"0">>, <<"1">> >>
+T4 == << <<"1", "0">>, <<"0">>, <<"0">>, <<"2">> >>
+T1wild == << <<"*">>, <<"0">>, <<"0">>, <<"1">> >>
+T2 == << <<"f", "e", "8", "0", ":", ":", "1">> >>
+Z4 == <<":", "0", "0", "0", "0">>
+T2alt == << <<"F", "E", "8", "0">> \o Z4 \o Z4 \o Z4 \o Z4 \o Z4 \o Z4 \o <<":", "0", "0", "0", "1">> >>
+T3 == << <<":", ":", "f", "f", "f", "f", ":", "a", "0", "0", ":", "1">> >>
+Brack(n) == LET m == [n EXCEPT ![1] = <<"[">> \o @] IN [m EXCEPT ![Len(m)] = @ \o <<"]">>]
+Zoned(n) == [n EXCEPT ![Len(n)] = @ \o <<"%", "e", "t", "h", "0">>]
+
 DNS(n) == [t |-> "DNS", n |-> n, a |-> 0, sp |-> "-"]
-DNSIP(a, sp) == [t |-> "DNSIP", n |-> NoName, a |-> a, sp |-> sp]
 IP(a, sp) == [t |-> "IP", n |-> NoName, a |-> a, sp |-> sp]
 OtherEntry == [t |-> "OTHER", n |-> NoName, a |-> 0, sp |-> "-"]
 HD(n) == [k |-> "dns", n |-> n, a |-> 0, sp |-> "-"]
-HI(a, sp) == [k |-> "ip", n |-> NoName, a |-> a, sp |-> sp]
+HI(a, sp, n) == [k |-> "ip", n |-> n, a |-> a, sp |-> sp]
 
-\* address ids: 1 = an IPv4 address, 2 = an IPv6 address, 3 = the IPv4-mapped IPv6 form of 1 (a
-\* different VALUE: 16 octets), 4 = another IPv4 address
 MCEntrySeq == <<
     DNS(<<La, Lb>>), DNS(<<Lstar, Lb>>), DNS(<<Lastar, Lb>>), DNS(<<L2star, Lb>>), DNS(<<La, Lstar>>),
-    DNS(<<Lxnstar, Lb>>), DNSIP(1, "text"), DNSIP(1, "wild"), IP(1, "plain"), IP(2, "alt"), IP(2, "nl"),
+    DNS(<<Lxnstar, Lb>>), DNS(<<Lstar>>), DNS(T1), DNS(T1wild), IP(1, "plain"), IP(2, "alt"), IP(2, "nl"),
     IP(3, "plain"), OtherEntry >>
 MCEntries == {MCEntrySeq[i] : i \in 1..Len(MCEntrySeq)}
-MCEntrySeqQ == << DNS(<<La, Lb>>), DNS(<<Lstar, Lb>>), DNS(<<L2star, Lb>>), DNS(<<La, Lstar>>),
-                  DNSIP(1, "wild"), IP(1, "plain"), IP(2, "alt"), OtherEntry >>
-MCEntriesQ == {MCEntrySeqQ[i] : i \in 1..Len(MCEntrySeqQ)}
+\* quick tier: the entries that carry a clause each (exact, whole-label wildcard, the D13 poison, a
+\* one-label wildcard that globs "[v6]", IP text in a DNS entry, two IP values, a non-identity)
+MCEntriesQ == {DNS(<<La, Lb>>), DNS(<<Lstar, Lb>>), DNS(<<L2star, Lb>>), DNS(<<Lstar>>), DNS(T1wild),
+               IP(1, "plain"), IP(2, "alt"), OtherEntry}
 MCHostSeq == <<
     HD(<<La, Lb>>), HD(<<LA, <<"B">> >>), HD(<<Lb, Lb>>), HD(<<Lab, Lb>>), HD(<<La, La>>), HD(<<Lxna, Lb>>),
     HD(<<Lempty, Lb>>), HD(<<La, Lb, Lempty>>), HD(<<La>>), HD(<<Lb, La, Lb>>), HD(<<La, Lstar>>),
     HD(<<L2star, Lb>>), HD(<<Lastar, Lb>>), HD(<<Lstar, Lb>>), HD(<<Lxnstar, Lb>>),
-    HI(1, "plain"), HI(4, "plain"), HI(2, "plain"), HI(2, "alt"), HI(2, "zoned"), HI(2, "brack"),
-    HI(2, "brackzoned"), HI(3, "plain"), HI(3, "alt"), HI(3, "brack") >>
+    HI(1, "plain", T1), HI(1, "brack", Brack(T1)), HI(4, "plain", T4), HI(2, "plain", T2), HI(2, "alt", T2alt),
+    HI(2, "zoned", Zoned(T2)), HI(2, "brack", Brack(T2)), HI(2, "brackzoned", Brack(Zoned(T2))),
+    HI(3, "plain", T3), HI(3, "brack", Brack(T3)) >>
 MCHosts == {MCHostSeq[i] : i \in 1..Len(MCHostSeq)}
-MCCNSeq == << <<La, Lb>>, <<Lstar, Lb>>, <<L2star, Lb>> >>
+MCHostsQ == {HD(<<La, Lb>>), HD(<<LA, <<"B">> >>), HD(<<Lb, Lb>>), HD(<<Lxna, Lb>>), HD(<<Lempty, Lb>>), HD(<<La>>),
+             HD(<<Lb, La, Lb>>), HD(<<L2star, Lb>>),
+             HI(1, "plain", T1), HI(1, "brack", Brack(T1)), HI(4, "plain", T4), HI(2, "plain", T2),
+             HI(2, "alt", T2alt), HI(2, "zoned", Zoned(T2)), HI(2, "brack", Brack(T2)),
+             HI(2, "brackzoned", Brack(Zoned(T2))), HI(3, "plain", T3)}
+MCCNSeq == << <<La, Lb>>, <<Lstar, Lb>>, <<L2star, Lb>>, <<Lstar>> >>
 MCCNs == {MCCNSeq[i] : i \in 1..Len(MCCNSeq)}
 NoDefects == {}
 AbortDefect == {"ABORT"}
@@ -78,7 +95,8 @@ CNIdx(c) == IF c = NoCN THEN 0 ELSE CHOOSE i \in 1..Len(MCCNSeq) : MCCNSeq[i] = 
 HIdx(h) == CHOOSE i \in 1..Len(MCHostSeq) : MCHostSeq[i] = h
 EmitLists ==
     /\ (st = <<>> /\ ShardS = 0) =>
-          PrintT(<<"DOM", ToJson([entries |-> MCEntrySeq, hosts |-> MCHostSeq, cns |-> MCCNSeq])>>)
+          PrintT(<<"DOM", ToJson([entries |-> MCEntrySeq, hosts |-> MCHostSeq, cns |-> MCCNSeq,
+                                  hsel |-> {HIdx(h) : h \in RepHosts}, esel |-> {EIdx(e) : e \in RepEntries}])>>)
     /\ (SanHash(st) % ShardK = ShardS) =>
           LET cases == {[cn |-> c.cn, h |-> x[1], on |-> x[2], api |-> x[3]] :
                            c \in Certs(st), x \in RepHosts \X BOOLEAN \X Apis}
